@@ -25,6 +25,11 @@ KindInfo(k) ==
     [] k = "2bad" -> [type |-> 2, id |-> "B", wellformed |-> FALSE]    \* message out of range for the key
     [] k = "1okB" -> [type |-> 1, id |-> "B", wellformed |-> TRUE]     \* a type-1 key whose id ends like the type-2 key's
     [] k = "1okC" -> [type |-> 1, id |-> "A", wellformed |-> TRUE]     \* ANOTHER type-1 key whose id ends like key k1's
+    \* a type-2 request that no client state of ours made: its blinded message is 2^e mod N, so the blind signature is
+    \* the integer 2 - 255 leading zero bytes in its fixed-length encoding (servable; nobody can finalize it)
+    [] k = "2tiny" -> [type |-> 2, id |-> "B", wellformed |-> TRUE]
+    \* a type-1 request carrying the FIRST byte of key k1's id (not its last): no configured issuer has this id
+    [] k = "1unkF" -> [type |-> 1, id |-> "F", wellformed |-> TRUE]
 
 \* An issuer: type, truncated key id, key, and whether it is a stub that
 \* always fails (standing for any evaluation error).
@@ -80,7 +85,8 @@ DecodeList ==
 
 \* finalizing slot j with request state j: a present response finalizes iff it
 \* answers request j (under the key that request was created for)
-ExpectedKey(k) == IF k = "1okB" THEN "k1b" ELSE IF k = "1okC" THEN "k1c" ELSE IF KindInfo(k).type = 1 THEN "k1" ELSE "k2"
+ExpectedKey(k) == IF k = "1okB" THEN "k1b" ELSE IF k = "1okC" THEN "k1c" ELSE IF k = "2tiny" THEN "nobody"
+                  ELSE IF KindInfo(k).type = 1 THEN "k1" ELSE "k2"
 FinalizeSlot(j) ==
   IF decoded[j] = Absent THEN "absent"
   ELSE IF decoded[j][4] = j /\ decoded[j][3] = ExpectedKey(reqs[j]) THEN "token" ELSE "error"
